@@ -404,18 +404,29 @@ def latin1(s):
 # --------------------------------------------------------------------------
 # classification of a reader case
 # --------------------------------------------------------------------------
-def classify_reader(ctx, stream, text, ty, fmt, got, mod, extra=None):
-    """compare the verdict of cnfgen (got) with the model's (mod); report failing inputs of the property"""
+def verdict_eq(a, b, names=True):
+    return a[0] == b[0] and (same_graph(a[1], b[1], names) if a[0] == 'ok' else a[1] == b[1])
+
+
+def classify_reader(ctx, stream, text, ty, fmt, got, mod, extra=None, af=None):
+    """compare the verdict of cnfgen (got) with the model of the CURRENT code (mod); report failing inputs of the
+    property.  af: verdict of the model of the code as found (before the repairs of D6, D7, D8); an implementation
+    that sides with it against the current model has lost a repair: the violation carries the site/class of the
+    old finding (entries with status 'fixed' suppress nothing)."""
     inp = dict(text=text, graph_type=ty, format=fmt)
     if extra:
         inp.update(extra)
     site = '%s-reader' % fmt
     bsite = site + ('-bipartite' if (fmt == 'kthlist' and ty == 'bipartite') else '')
+    rec = dict(input=inp, implementation=list(got), model=list(mod))
+    if af is not None:
+        rec['model_as_found'] = list(af)
+        rec['agrees_with_code_as_found'] = (not verdict_eq(af, mod)) and verdict_eq(got, dag_filter(ty, af))
     # 1. the property itself, on the implementation alone
     if got[0] == 'exc' and got[1] != 'ValueError':
         ctx.disagreements_checked += 1
         ctx.violation('counterexample', 'readGraph raised %s (not ValueError) on a %s text' % (got[1], fmt),
-                      dict(input=inp, implementation=list(got), model=list(mod)), True, site=site, cls='raises-' + got[1])
+                      rec, True, site=site, cls='raises-' + got[1])
         return
     if got[0] == 'ok' and not consistent(text, ty, fmt, got[1]):
         ctx.disagreements_checked += 1
@@ -425,38 +436,24 @@ def classify_reader(ctx, stream, text, ty, fmt, got, mod, extra=None):
             lefts = kth_lefts(text)
             if len(set(lefts)) < len(lefts):
                 cls = 'duplicate-left-vertex'
+        rec['described'] = [d[0], d[1], sorted(d[2])] if d else None
         ctx.violation('counterexample', 'readGraph accepted a %s text but returned a graph that is not the one the text describes' % fmt,
-                      dict(input=inp, implementation=list(got), described=[d[0], d[1], sorted(d[2])] if d else None, model=list(mod)),
-                      True, site=bsite, cls=cls)
+                      rec, True, site=bsite, cls=cls)
         return
-    # 2. correspondence with the model
-    if mod[0] == 'exc' and mod[1] != 'ValueError':
-        # the faithful model reproduces a known crash; the implementation now answers ValueError: repaired
-        if got[0] == 'exc' and got[1] == 'ValueError':
-            ctx.tally('repaired-defect-seen', site + ':' + mod[1])
-            return
-    if mod == ('exc', 'IndexError') and fmt == 'dimacs' and got[0] == 'ok':
-        # repaired reader that skips blank lines: must agree with the model on the text without them
-        t2 = ''.join(l for l in text.splitlines(True) if l.strip())
-        rep = ctx.model.call(Sym('gio_read'), True, Sym(ty), Sym(fmt), t2)
-        if not is_error(rep) and model_outcome(rep) == (got[0], got[1]):
-            ctx.tally('repaired-defect-seen', site + ':blank-lines-skipped')
-            return
-    if mod[0] == 'ok' and not consistent(text, ty, fmt, mod[1]) and got[0] == 'exc' and got[1] == 'ValueError':
-        ctx.tally('repaired-defect-seen', site + ':inconsistent-accept')
+    # 2. the model of the current code is demanded: no tolerance
+    if verdict_eq(got, mod):
         return
-    if fmt == 'kthlist' and ty == 'bipartite' and mod[0] == 'ok' and got[0] == 'exc' and got[1] == 'ValueError':
-        # documented behaviour (left vertices in increasing order): the model keeps the dead `previous` test (D8)
+    ctx.disagreements_checked += 1
+    if fmt == 'kthlist' and ty == 'bipartite' and got[0] == 'ok' and mod == ('exc', 'ValueError'):
+        # a file the format forbids (left vertices must be listed once, in increasing order) is accepted: D8 is back
         lefts = kth_lefts(text)
         if any(a >= b for a, b in zip(lefts, lefts[1:])):
-            ctx.tally('repaired-defect-seen', bsite + ':order-enforced')
+            cls = 'duplicate-left-vertex' if len(set(lefts)) < len(lefts) else 'left-vertices-out-of-order'
+            ctx.violation('counterexample', 'readGraph accepted a bipartite kthlist whose left vertices are repeated or out of order (bad file not rejected)',
+                          rec, True, site=bsite, cls=cls)
             return
-    agree = (got[0] == mod[0]) and (same_graph(got[1], mod[1]) if got[0] == 'ok' else got[1] == mod[1])
-    if not agree:
-        ctx.disagreements_checked += 1
-        ctx.violation('correspondence', 'verdict of readGraph differs from the model (GraphIO.v); theorems C14_* no longer cover the code',
-                      dict(input=inp, implementation=list(got), model=list(mod), correspondence='GraphIO.v <-> readGraph/' + fmt),
-                      False, site=site, cls='verdict-differs')
+    ctx.violation('correspondence', 'verdict of readGraph differs from the model (GraphIO.v); theorems C14_* no longer cover the code',
+                  dict(rec, correspondence='GraphIO.v <-> readGraph/' + fmt), False, site=site, cls='verdict-differs')
 
 
 # --------------------------------------------------------------------------
@@ -526,11 +523,14 @@ def run(ctx):
                 reqs.append(cmd('gio_read', has_dot, Sym(ty), Sym(fmt), text) if latin1(text) else cmd('gt_print', 0))
             elif ty == 'bipartite':
                 nodes = [[str(i), 0] for i in range(1, cg[2] + 1)] + [[str(i), 1] for i in range(cg[2] + 1, cg[2] + cg[3] + 1)]
-                reqs.append(cmd('gio_bip_from_nx_str', cg[1], nodes, [[str(u), str(v + cg[2])] for u, v in cg[4]]))
+                bes = [[str(u), str(v + cg[2])] for u, v in cg[4]]
+                # gml: from_networkx on the labels as they are; dot: after the int() relabelling of readGraph
+                reqs.append(cmd('gio_bip_from_nx_str', cg[1], nodes, bes) if fmt == 'gml' else cmd('gio_dot_bip_norm', cg[1], nodes, bes))
                 reqs.append(cmd('gt_print', 0))
             else:
                 reqs.append(cmd('gio_' + fmt, [Sym(cg[0]), cg[1], cg[2], cg[3], cg[4]]))
-                reqs.append(cmd('gt_print', 0))
+                # the label rule of the code as found (D9), to recognise a lost repair
+                reqs.append(cmd('gio_dot_as_found', [Sym(cg[0]), cg[1], cg[2], cg[3], cg[4]]) if fmt == 'dot' else cmd('gt_print', 0))
     reps = ctx.model.batch(reqs)
     for k, (ty, fmt, cg, text, back) in enumerate(jobs):
         r1, r2 = reps[2 * k], reps[2 * k + 1]
@@ -545,12 +545,13 @@ def run(ctx):
             ctx.disagreements_checked += 1
             big = (cg[2] + cg[3]) >= 10
             cls = 'renumbered-n>=10' if (fmt == 'dot' and big) else ('raises-' + back[1] if back[0] == 'exc' else 'graph-changed')
-            explained = None
-            if fmt in ('gml', 'dot') and ty != 'bipartite' and r1 is not None and r1 != 'none':
-                explained = (dag_filter(ty, model_outcome(r1[1]))[:1] == back[:1] and
-                             (back[0] != 'ok' or same_graph(model_outcome(r1[1])[1], back[1], names=False)))
+            as_found = None
+            if fmt == 'dot' and ty != 'bipartite' and r2 is not None and r2 != 'none':
+                # does the implementation follow the label rule of the code as found (strings sorted as strings, D9)?
+                af = dag_filter(ty, model_outcome(r2[1]))
+                as_found = verdict_eq(af, back, names=False)
             ctx.violation('counterexample', 'write then read in %s format does not return the same %s graph' % (fmt, ty),
-                          dict(input=inp, read_back=list(back), explained_by_model_of_label_sorting=explained), True,
+                          dict(input=inp, read_back=list(back), agrees_with_label_sorting_as_found=as_found), True,
                           site=fmt + '-roundtrip', cls=cls)
         if fmt in INHOUSE:
             # (b) same text
@@ -562,22 +563,18 @@ def run(ctx):
             # (c) same reader verdict
             if latin1(text):
                 mod = model_outcome(r2)
-                if not (back[0] == mod[0] and (same_graph(back[1], mod[1]) if back[0] == 'ok' else back[1] == mod[1])):
+                if not verdict_eq(back, mod):
                     ctx.disagreements_checked += 1
                     ctx.violation('correspondence', 'readGraph on a written file differs from the model reader',
                                   dict(input=inp, implementation=list(back), model=list(mod)), False, site=fmt + '-reader', cls='verdict-differs')
         else:
             # differential on cnfgen's own step: sorted labels + from_networkx
-            if ty == 'bipartite':
+            if ty == 'bipartite' and fmt == 'gml':
                 mod = model_outcome(r1)
             else:
                 mod = ('exc', 'not-a-graph') if (r1 is None or r1 == 'none') else dag_filter(ty, model_outcome(r1[1]))
-            if back[0] == 'ok' and same_graph(back[1], cg, names=False):
-                # the round trip is the identity (documented behaviour); the faithful model predicts a renumbering
-                # only for dot files with ten or more vertices (D9): a repaired reader agrees with the spec variant
-                if not (mod[0] == 'ok' and same_graph(mod[1], cg, names=False)):
-                    ctx.tally('repaired-defect-seen', fmt + '-roundtrip:label-order')
-            elif not (back[0] == mod[0] and (same_graph(back[1], mod[1], names=False) if back[0] == 'ok' else back[1] == mod[1])):
+            # the model of the current code (numeric labels sorted as numbers) is demanded
+            if not verdict_eq(back, mod, names=False):
                 ctx.disagreements_checked += 1
                 ctx.violation('correspondence', 'graph read back from %s differs from the model of label sorting + from_networkx' % fmt,
                               dict(input=inp, implementation=list(back), model=list(mod)), False, site=fmt + '-roundtrip', cls='model-differs')
@@ -618,16 +615,20 @@ def run(ctx):
         cases.append(('fixed-text', ty, fmt, t, None))
     reqs = [cmd('gio_read', has_dot, Sym(ty), Sym(fmt), t) for (_s, ty, fmt, t, _e) in cases]
     reps = ctx.model.batch(reqs)
-    for (stream, ty, fmt, t, extra), rep in zip(cases, reps):
+    reps_af = ctx.model.batch([cmd('gio_read_as_found', has_dot, Sym(ty), Sym(fmt), t) for (_s, ty, fmt, t, _e) in cases])
+    for (stream, ty, fmt, t, extra), rep, rep_af in zip(cases, reps, reps_af):
         ctx.count(stream, (ty, fmt, t), len(t) > 0, sample=dict(graph_type=ty, format=fmt, text=t[:200], **(extra or {})))
-        if is_error(rep):
-            ctx.violation('correspondence', 'model error', dict(input=dict(text=t, graph_type=ty, format=fmt), model=rep), False,
+        if is_error(rep) or is_error(rep_af):
+            ctx.violation('correspondence', 'model error', dict(input=dict(text=t, graph_type=ty, format=fmt), model=[rep, rep_af]), False,
                           site='model-error', cls=stream)
             continue
         got = impl_read(G, t, ty, fmt)
         mod = model_outcome(rep)
+        af = model_outcome(rep_af)
         ctx.tally(stream + ' verdict', fmt + ':' + (got[1] if got[0] == 'exc' else 'graph'))
-        classify_reader(ctx, stream, t, ty, fmt, got, mod, extra)
+        if not verdict_eq(mod, af):
+            ctx.tally('texts on which the repairs matter', '%s:%s -> %s' % (fmt, af[1] if af[0] == 'exc' else 'graph', mod[1] if mod[0] == 'exc' else 'graph'))
+        classify_reader(ctx, stream, t, ty, fmt, got, mod, extra, af)
 
     # ---------------- formats that are not valid for the type ----------------
     g0 = {ty: mk_graph(G, ty, 2, 2 if ty == 'bipartite' else 0, [(1, 2)], 'G') for ty in TYPES}
@@ -791,8 +792,10 @@ def replay(ctx, rp):
     has_dot = G.has_dot_library()
     if 'text' in inp and fmt in INHOUSE:
         rep = ctx.model.call(Sym('gio_read'), has_dot, Sym(ty), Sym(fmt), inp['text'])
+        rep_af = ctx.model.call(Sym('gio_read_as_found'), has_dot, Sym(ty), Sym(fmt), inp['text'])
         ctx.count('replay', (ty, fmt, inp['text']), True, sample=inp)
-        classify_reader(ctx, 'replay', inp['text'], ty, fmt, impl_read(G, inp['text'], ty, fmt), model_outcome(rep))
+        classify_reader(ctx, 'replay', inp['text'], ty, fmt, impl_read(G, inp['text'], ty, fmt), model_outcome(rep),
+                        af=model_outcome(rep_af))
     if 'graph' in inp and fmt:
         cg = inp['graph']
         g = mk_graph(G, ty, cg[2], cg[3], [tuple(e) for e in cg[4]], cg[1])
